@@ -1,7 +1,7 @@
 """cross-registrations: a structural clause that several properties depend on is
 decided under each of them (same rule function, the property's own rule id)"""
 from . import rule
-from . import c01, c02, c03, c04, c05, c06, c07, c08, c09, c10, c11, c13, c14, c15, c16, c17, c20
+from . import c01, c02, c03, c04, c05, c06, c07, c08, c09, c10, c11, c12, c13, c14, c15, c16, c17, c20
 
 # C02: arguments are evaluated by a per-call valuator in a bracketed argument mode
 rule('C02.6')(c06.per_evaluation_state)
@@ -98,3 +98,24 @@ rule('C09.12')(c02.literal_passthrough)         # Optional / Match defaults: con
 rule('C14.10')(c01.conversion_and_index)       # a failing entry after a wildcard is dropped only if its failure became a PathAccessError
 rule('C20.17')(c05.message_memo_follows_finalisation)   # a re-entrant call's error keeps its own trace
 rule('C06.15')(c05.message_memo_follows_finalisation)   # the rendered error does not depend on an earlier str()
+
+
+# round-4 seeds: clauses shared between properties
+rule('C01.13')(c02.literal_passthrough)         # a path segment (e.g. a namedtuple key) reaches the accessor as it was written
+rule('C05.12')(c08.arg_mode_bracketed)          # an argument spec is evaluated through the evaluator (its own frame, its own trace line)
+rule('C05.13')(c07.who_chains)                  # every chain step runs in a frame chained from the previous step (trace order)
+rule('C06.16')(c07.vars_no_retain)              # scope variables never alias the spec's own defaults
+rule('C06.17')(c16.aggregator_shapes)           # aggregators start from fresh state, never from an input item
+rule('C07.12')(c01.identity_flow)               # S.name returns the bound object itself (None included)
+rule('C08.10')(c11.missing_tail)                # the assigned value is evaluated once, against the real target
+rule('C08.11')(c03.chaining)                    # Pipe is a chain, not a mode wrapper
+rule('C11.11')(c01.conversion_and_index)        # the part index Assign(missing=) back-fills from is the failing segment's own
+rule('C11.12')(c20.memos_monotone)              # a cached wildcard path is the fully translated one
+rule('C12.8')(c14.child_enumeration)            # wildcard destinations: one failing child does not hide its siblings
+rule('C13.11')(c12.miss_classes)                # the delete handler is looked up per destination object
+rule('C14.11')(c12.miss_classes)                # ignore_missing is decided per match, the broadcast goes on
+rule('C14.12')(c12.parent_miss)
+rule('C14.13')(c15.text_is_not_iterable)        # str / bytes are leaves for '*' and '**'
+rule('C20.18')(c09.dict_branch)                 # Optional defaults are rebuilt per evaluation
+rule('C02.11')(c03.spec_predicate)               # every other argument is passed through literally: classes included
+rule('C07.13')(c02.literal_passthrough)          # S(name={}) binds a fresh container, not the literal inside the spec
